@@ -66,6 +66,40 @@ mod edit_dump {
     }
 }
 
+/// what `into_mut` left behind: keys / items that still carry a span, keys whose stored spelling is not owned text
+/// (in EVERY configuration an editable document refers to nothing in the source any more)
+#[cfg(feature = "te_parse")]
+fn leftovers(t: &toml_edit::Table) -> usize {
+    use toml_edit::{Item, Value};
+    fn key_left(k: &toml_edit::Key) -> usize {
+        (k.span().is_some() as usize) + (k.as_repr().map_or(false, |r| r.as_raw().as_str().is_none()) as usize)
+    }
+    fn value_left(v: &Value) -> usize {
+        let mut n = v.span().is_some() as usize;
+        match v {
+            Value::Array(a) => n += a.iter().map(value_left).sum::<usize>(),
+            Value::InlineTable(t) => {
+                for (k, x) in t.iter() {
+                    n += t.key(k).map_or(0, key_left) + value_left(x);
+                }
+            }
+            _ => {}
+        }
+        n
+    }
+    let mut n = t.span().is_some() as usize;
+    for (k, it) in t.iter() {
+        n += t.key(k).map_or(0, key_left);
+        n += match it {
+            Item::None => 0,
+            Item::Value(v) => value_left(v),
+            Item::Table(x) => leftovers(x),
+            Item::ArrayOfTables(a) => (a.span().is_some() as usize) + a.iter().map(leftovers).sum::<usize>(),
+        };
+    }
+    n
+}
+
 /// p: toml_edit parse (+ print when the display feature is on)
 fn cmd_p(_text: &[u8]) -> String {
     #[cfg(feature = "te_parse")]
@@ -74,11 +108,12 @@ fn cmd_p(_text: &[u8]) -> String {
         match toml_edit::ImDocument::parse(s) {
             Ok(d) => {
                 let tree = edit_dump::table(d.as_table());
+                let left = leftovers(d.clone().into_mut().as_table());
                 #[cfg(feature = "te_display")]
                 let printed = hex(d.into_mut().to_string().as_bytes());
                 #[cfg(not(feature = "te_display"))]
                 let printed = "skip".to_string();
-                format!("ok tree={tree} print={printed}")
+                format!("ok tree={tree} print={printed} mutspans={left}")
             }
             Err(e) => {
                 let _ = e.message();
